@@ -229,14 +229,18 @@ func ruleP7(c *Ctx) {
 				if n == "strconv.Atoi" {
 					okSrc = true
 				}
-				if n == "strconv.ParseInt" || n == "strconv.ParseUint" {
-					if k, isK := call.Call.Args[1].(*ssa.Const); isK && k.Int64() == 10 {
+				// pass 1 hands over int32 values, negative ones included: an unsigned parse or one
+				// narrower than 32 bits fails (and yields 0 or a saturated value) for part of them
+				if n == "strconv.ParseInt" {
+					k, isK := call.Call.Args[1].(*ssa.Const)
+					w, isW := call.Call.Args[2].(*ssa.Const)
+					if isK && k.Int64() == 10 && isW && (w.Int64() == 0 || w.Int64() >= 32) {
 						okSrc = true
 					}
 				}
 			}
 		}
-		c.check(okSrc, "S1d", "handle"+d.name+"|decimal parse", c.L.Pos(f.Pos()), "the emitted value must be the base-10 parse of the argument (pass 1 hands numbers over in decimal)")
+		c.check(okSrc, "S1d", "handle"+d.name+"|decimal parse", c.L.Pos(f.Pos()), "the emitted value must be the base-10 signed parse (Atoi, or ParseInt of at least 32 bits) of the argument: pass 1 hands int32 values over in decimal, and an unsigned or narrower parse fails on part of them")
 	}
 	// pass-1 side: emitCommand writes base-10 text joined by commas
 	if fd, p := c.L.FuncDecl("internal/pass1", "emitCommand"); fd == nil {
